@@ -1129,4 +1129,162 @@ theorem print_chain (o : Opts) (f : File) (b : Bytes) (hwf : f.wf = true) (hmono
       obtain ⟨c1, c2⟩ := lexChain_expect_init _ (by rw [hsumF, step_nl]; exact hl.w.ok) (by rw [hsumF, step_nl]; rfl)
       exact ⟨rfl, c1⟩
 
+/-! ## Lists and files -/
+
+mutual
+/-- the first token of a well-formed statement is not `;` or `&` -/
+theorem ftoks_head_s : ∀ s : Stmt, s.wf = true → ∃ tp r, s.ftoks = tp :: r ∧ tkOf tp.1 = .other
+  | .mk pos semi neg bg cmd, h => by
+    have hc : cmd.wf = true := by simp only [Stmt.wf, Bool.and_eq_true] at h; exact h.1
+    cases neg with
+    | true => exact ⟨_, _, by simp only [Stmt.ftoks, ↓reduceIte, List.singleton_append]; rfl, rfl⟩
+    | false =>
+      obtain ⟨tp, r, e, k⟩ := ftoks_head_c cmd hc
+      exact ⟨tp, _, by simp only [Stmt.ftoks, Bool.false_eq_true, ↓reduceIte, List.nil_append, e, List.cons_append]; rfl, k⟩
+theorem ftoks_head_c : ∀ c : Cmd, c.wf = true → ∃ tp r, c.ftoks = tp :: r ∧ tkOf tp.1 = .other
+  | .call args, h => by
+    cases args with
+    | nil => simp [Cmd.wf] at h
+    | cons w rest => exact ⟨_, _, by simp only [Cmd.ftoks, List.map_cons]; rfl, rfl⟩
+  | .subshell lp rp ss, _ => ⟨_, _, by simp only [Cmd.ftoks]; rfl, rfl⟩
+  | .block lb rb ss, _ => ⟨_, _, by simp only [Cmd.ftoks]; rfl, rfl⟩
+  | .binary opPos op x y, h => by
+    have hx : x.wf = true := by simp only [Cmd.wf, Bool.and_eq_true] at h; exact h.1.1.1.1
+    obtain ⟨tp, r, e, k⟩ := ftoks_head_s x hx
+    exact ⟨tp, _, by simp only [Cmd.ftoks, e, List.cons_append]; rfl, k⟩
+end
+
+structure OKS (ss' : Stmts) : Prop where
+  wf : ss'.wf = true
+  ok3 : ∀ tp ∈ ss'.ftoks, tp.1.ok3 tp.2
+  sorted : Sorted ss'.lines
+  pk : ss'.pkAll
+
+theorem OKS.cons {s : Stmt} {r : Stmts} (h : OKS (.cons s r)) : OKs s ∧ s.pk none ∧ OKS r := by
+  obtain ⟨w1, w2⟩ := Stmts.wf_cons h.wf
+  have hs := h.sorted
+  unfold Sorted at hs
+  simp only [Stmts.lines] at hs
+  obtain ⟨s1, s2, _⟩ := List.pairwise_append.mp hs
+  have hp := h.pk
+  simp only [Stmts.pkAll] at hp
+  exact ⟨⟨w1, fun tp htp => h.ok3 tp (by simp [Stmts.ftoks, htp]), s1⟩, hp.1,
+    ⟨w2, fun tp htp => h.ok3 tp (by simp [Stmts.ftoks, htp]), s2, hp.2⟩⟩
+
+theorem glue_loop : ∀ (ss ss' : Stmts) (p : P) (first : Bool) (K K' : List (TK × Nat)),
+    ss.wf = true → ss.lin = true → p.o.singleLine = false → OKS ss' → ss'.norm = ss.norm →
+    ss'.ftoks.map tinfo ++ K' = loopD p first ss ++ K → NoSA K → NoSA K' →
+    TrLoop p first ss ss' ∧ K' = K
+  | .nil, .nil, p, first, K, K', _, _, _, _, _, hd, _, _ => by
+    simp only [Stmts.ftoks, loopD, List.map_nil, List.nil_append] at hd
+    exact ⟨by simp [TrLoop], hd⟩
+  | .nil, .cons _ _, _, _, _, _, _, _, _, _, hn, _, _, _ => by simp [Stmts.norm] at hn
+  | .cons _ _, .nil, _, _, _, _, _, _, _, _, hn, _, _, _ => by simp [Stmts.norm] at hn
+  | .cons s rest, .cons s' rest', p, first, K, K', hwf, hlin, hsl, ok, hn, hd, hK, hK' => by
+    obtain ⟨hs, hr⟩ := Stmts.wf_cons hwf
+    simp only [Stmts.lin, Bool.and_eq_true] at hlin
+    simp only [Stmts.norm, NStmts.cons.injEq] at hn
+    obtain ⟨oks, pks, okr⟩ := ok.cons
+    have hsl1 : (p.stmtSep first s.pos.line).o.singleLine = false := by rw [stmtSep_o]; exact hsl
+    have hsl2 : ({ ((p.stmtSep first s.pos.line).stmt s) with wantNewline := true } : P).o.singleLine = false := by
+      show ((p.stmtSep first s.pos.line).stmt s).o.singleLine = false
+      rw [stmt_o s _ hlin.1]; exact hsl1
+    simp only [Stmts.ftoks, loopD, List.map_append, List.append_assoc] at hd
+    -- what follows the statement does not start with `;` or `&`
+    have hK1 : NoSA (loopD { ((p.stmtSep first s.pos.line).stmt s) with wantNewline := true } false rest ++ K) := by
+      cases rest with
+      | nil => simpa [loopD] using hK
+      | cons s2 r2 =>
+        obtain ⟨hs2, _⟩ := Stmts.wf_cons hr
+        have hl2 : s2.lin = true := by
+          have := hlin.2
+          simp only [Stmts.lin, Bool.and_eq_true] at this
+          exact this.1
+        obtain ⟨r, e⟩ := stmtD_head s2 (({ ((p.stmtSep first s.pos.line).stmt s) with wantNewline := true } : P).stmtSep false s2.pos.line) hs2 hl2
+        intro x rr hx
+        simp only [loopD, e, List.cons_append, List.cons.injEq] at hx
+        rw [← hx.1]
+    have hK1' : NoSA (rest'.ftoks.map tinfo ++ K') := by
+      cases rest' with
+      | nil => simpa [Stmts.ftoks] using hK'
+      | cons s2 r2 =>
+        obtain ⟨hs2, _⟩ := Stmts.wf_cons okr.wf
+        obtain ⟨tp, r, e, k⟩ := ftoks_head_s s2 hs2
+        intro x rr hx
+        simp only [Stmts.ftoks, e, List.cons_append, List.map_cons, List.cons.injEq] at hx
+        rw [← hx.1]
+        exact k
+    obtain ⟨ts, hd2⟩ := glue_stmt s s' _ none _ _ hs hlin.1 hsl1 oks hn.1 pks (by intro bp e; cases e) hd
+      (Or.inl ⟨hK1, hK1'⟩)
+    obtain ⟨tr, hk⟩ := glue_loop rest rest' _ false K K' hr hlin.2 hsl2 okr hn.2 hd2 hK hK'
+    refine ⟨?_, hk⟩
+    simp only [TrLoop]
+    exact ⟨ts, tr⟩
+
+theorem mem_dropNl {tp : TokPos} {l : List TokPos} (h : tp ∈ dropNl l) : tp ∈ l := by
+  unfold dropNl at h
+  exact (List.mem_filter.mp h).1
+
+/-- **The parser reads printed text back as a transcript** (programs without subshells and
+    blocks, every option set without SingleLine). -/
+theorem transcript (o : Opts) (l : Lang) (src : Bytes) (f f' : File) (b : Bytes) (hsrc : parse l src = .ok f)
+    (hlin : f.stmts.lin = true) (hne : f.stmts ≠ .nil) (hsl : o.singleLine = false)
+    (hp : printFile o f = .ok b) (hq : parse l b = .ok f') : TrFile o f f' := by
+  obtain ⟨hwf, hmono⟩ := parse_wf_posMono l src f hsrc
+  obtain ⟨hwf', hmono'⟩ := parse_wf_posMono l b f' hq
+  obtain ⟨f'', h1, hnorm⟩ := roundtrip_gen o l f b hwf hmono hne hp
+  rw [hq] at h1
+  simp only [Except.ok.injEq] at h1
+  subst h1
+  obtain ⟨hb, hc⟩ := print_chain o f b hwf hmono hne hp
+  obtain ⟨pf, hpf⟩ : ∃ pf, pf = ((P.init o).stmtList f.stmts).newline 0 := ⟨_, rfl⟩
+  rw [← hpf] at hb hc
+  have hkinds := lexAll_pieces pf.out.reverse hc
+  have hlines := lexAll_pieces_lines pf.out.reverse hc
+  rw [← hb] at hkinds hlines
+  obtain ⟨Le, hbr⟩ := bridge pf.out.reverse false 1 (lexAll b) (lexChain_shape _ hc) hkinds hlines
+  -- the tokens of the printer run
+  have htl : pinfo 1 pf.out.reverse = loopD (P.init o) true f.stmts := by
+    have e1 : pf.tl = ((P.init o).stmtListLoop true f.stmts).tl := by
+      rw [hpf]
+      unfold P.tl
+      have := (P.stmtListWith_out (P.init o) f.stmts (fun q => q.stmtListLoop true f.stmts)).1
+      show pinfo 1 (Piece.gap [10] :: ((P.init o).stmtList f.stmts).out).reverse = _
+      unfold P.stmtList
+      rw [this, List.reverse_cons, pinfo_append]
+      simp [pinfo]
+    have e2 := tl_loop f.stmts (P.init o) true hwf hlin hsl
+    have e3 : (P.init o).tl = [] := rfl
+    rw [e3, List.nil_append] at e2
+    exact e1.trans e2
+  rw [htl] at hbr
+  -- the tokens of the re-read tree
+  obtain ⟨tail, hfl, htail⟩ := parse_flatten l b f' hq
+  rw [hfl, List.map_append] at hbr
+  have ok : OKS f'.stmts := by
+    refine ⟨hwf', ?_, hmono', parse_pk l b f' hq⟩
+    intro tp htp
+    exact lexAll_ok3 b tp (mem_dropNl (by rw [hfl]; exact List.mem_append_left _ htp))
+  have hK : NoSA [(TK.other, Le)] := by
+    intro x rr e
+    simp only [List.cons.injEq] at e
+    rw [← e.1]
+  have hK' : NoSA (tail.map tinfo) := by
+    intro x rr e
+    cases tail with
+    | nil => simp at e
+    | cons t0 tr =>
+      simp only [List.map_cons, List.cons.injEq] at e
+      have := htail t0 rfl
+      rw [← e.1]
+      simp [tinfo, this, tkOf]
+  exact (glue_loop f.stmts f'.stmts (P.init o) true _ _ hwf hlin hsl ok hnorm hbr hK hK').1
+
+/-- **Idempotence without SingleLine on programs without subshells and blocks.** -/
+theorem idempotent_linear (o : Opts) (l : Lang) (src : Bytes) (f f' : File) (b : Bytes) (hsrc : parse l src = .ok f)
+    (hlin : f.stmts.lin = true) (hne : f.stmts ≠ .nil) (hsl : o.singleLine = false)
+    (hp : printFile o f = .ok b) (hq : parse l b = .ok f') : printFile o f' = .ok b := by
+  rw [printFile_fix o f f' hsl (transcript o l src f f' b hsrc hlin hne hsl hp hq)]
+  exact hp
+
 end ShVerif.L4
